@@ -11,6 +11,8 @@ use std::collections::{BTreeMap, HashMap};
 
 pub const ND: i32 = -5;
 pub const NANV: i32 = 50;
+/// negative zero in the Z/M table (only where a driver asks for it: it is outside the ranking)
+pub const NEGZ: i32 = 51;
 pub const GARBAGE: i32 = 99;
 pub const IDMIN: i32 = -8;
 pub const IDMAX: i32 = 8;
@@ -114,6 +116,14 @@ impl Conc {
         c
     }
 
+    /// id 51 of the Z/M table is -0.0 (equal to the id of 0 as a number, different in its bits)
+    pub fn with_negzero(mut self) -> Conc {
+        self.zm.insert(NEGZ, -0.0);
+        self.rev_zm = self.zm.iter().map(|(k, v)| (v.to_bits(), *k)).collect();
+        self.check();
+        self
+    }
+
     /// the extreme Z/M ids are the infinities (values the header's running range starts from internally)
     pub fn force_inf(mut self) -> Conc {
         self.zm.insert(IDMIN, f64::NEG_INFINITY);
@@ -175,7 +185,7 @@ impl Conc {
         }
         prev = None;
         for (k, v) in self.zm.iter() {
-            if *k == NANV {
+            if *k == NANV || *k == NEGZ {
                 continue;
             }
             if let Some(p) = prev {
